@@ -76,6 +76,7 @@ type h2Client struct {
 	ended  bool
 	goaway bool
 	pings  byte
+	opened bool
 }
 
 func newH2(addr string) (client, error) {
@@ -229,14 +230,18 @@ func (h *h2Client) pump(upto int) error {
 	return nil
 }
 
-func (h *h2Client) BigSize() int { return 256 << 10 }
+func (h *h2Client) BigSize() int   { return 256 << 10 }
+func (h *h2Client) GoneAway() bool { return h.goaway }
 
 func (h *h2Client) ReadHalf() error { return h.pump(32 << 10) }
 
 func (h *h2Client) ReadRest() (bool, string) {
 	h.c.SetWriteDeadline(time.Now().Add(ioWait))
-	h.fr.WriteWindowUpdate(0, 1<<30)
-	if !h.ended {
+	if !h.opened { // the connection window is opened once; a second increment of this size would overflow it
+		h.opened = true
+		h.fr.WriteWindowUpdate(0, 1<<30)
+	}
+	if !h.ended && h.want > 60000 {
 		h.fr.WriteWindowUpdate(h.sid, 1<<30)
 	}
 	if err := h.pump(1 << 40); err != nil {
